@@ -486,6 +486,7 @@ def build_variants():
           note="thinly documented format: conservative token domain"),
         V("recutils", "recutils", ["--orecutils"], ["--irecutils"], dom_recutils, hetero=True),
     ]
+    out += _more_variants()
     return out
 
 
@@ -675,3 +676,80 @@ def gen_records(rng, v, focus=None, position=None, hostile_p=0.35, allow_bytes=T
         if len(set(canon)) != len(canon):
             return None, "keys collide modulo edge white space"
     return recs, info
+
+
+# ------------------------------------------------------------------------------------------
+# second-pass additions (C01 only; nothing above changes): option x format combinations named in the property
+# statement that had no variant, and independent codecs for variants that had none.
+
+def _pprint_headerless_read(data):
+    """PPRINT without header lines (--ho): blocks of space-aligned data lines; implicit keys 1..n; '-' = empty."""
+    out = []
+    for line in C.split_lines(data):
+        cells = [c for c in line.split(b" ") if c != b""]
+        if cells:
+            out.append([(str(i + 1).encode(), (b"" if c == b"-" else c)) for i, c in enumerate(cells)])
+    return out
+
+
+def _pprint_headerless_write(records):
+    out = []
+    for keys, rows in C.records_to_blocks(records):
+        table = [[(c if c != b"" else b"-") for c in row] for row in rows]
+        widths = [max(C._ulen(row[j]) for row in table) for j in range(len(keys))]
+        out.append(b"\n".join(b" ".join(c + b" " * (widths[j] - C._ulen(c)) for j, c in enumerate(row)).rstrip(b" ")
+                              for row in table) + b"\n")
+    return b"\n".join(out)
+
+
+def _more_variants():
+    V = Variant
+    dlite = make_dom_csvlite()
+    ddkvp = make_dom_lines([b",", b"\n"], key_forbid=[b"="])
+    dpp = make_dom_lines([b" ", b"\n"], val_not=(b"-",))
+    dnidx = make_dom_lines([b" ", b"\t", b"\n"], val_nonempty=True)
+    dxt_fs = make_dom_lines([b";", b"\n"], key_forbid=[b" "], val_nonempty=True, no_edge_space=True)
+    return [
+        # (b) headerless / implicit header for PPRINT (pprint-only-flags: --ho / --hi apply to PPRINT too)
+        V("pprint-headerless", "pprint", ["--opprint", "--ho"], ["--ipprint", "--hi"], dpp, positional=True, hetero=True,
+          pyread=_pprint_headerless_read, pywrite=_w(_pprint_headerless_write),
+          styles=[("left", _w(_pprint_headerless_write)), ("crlf", _crlf(_pprint_headerless_write))]),
+        V("tsvlite-headerless", "tsvlite", ["--otsvlite", "--headerless-csv-output"], ["--itsvlite", "--implicit-csv-header"],
+          make_dom_csvlite(b"\t"), positional=True, sole_empty_ok=False),
+        # (c) --ors crlf for the line formats whose writers accept it (separators page: RS 'or \\r\\n')
+        V("csvlite-ors-crlf", "csvlite", ["--ocsvlite", "--ors", "crlf"], ["--icsvlite"], dlite, hetero=True,
+          pyread=lambda d: C.read_csvlite_document(d), sole_empty_ok=False),
+        V("tsvlite-ors-crlf", "tsvlite", ["--otsvlite", "--ors", "crlf"], ["--itsvlite"], make_dom_csvlite(b"\t"), hetero=True,
+          pyread=lambda d: C.read_csvlite_document(d, fs=b"\t"), sole_empty_ok=False),
+        V("dkvp-ors-crlf", "dkvp", ["--odkvp", "--ors", "crlf"], ["--idkvp"], ddkvp, hetero=True,
+          pyread=lambda d: C.read_dkvp_document(d)),
+        V("nidx-ors-crlf", "nidx", ["--onidx", "--ors", "crlf"], ["--inidx"], dnidx, positional=True, hetero=True,
+          pyread=lambda d: C.read_nidx_document(d)),
+        V("pprint-ors-crlf", "pprint", ["--opprint", "--ors", "crlf"], ["--ipprint"], dpp, hetero=True,
+          pyread=lambda d: C.read_pprint_document(d)),
+        # (d) custom separators of the separators page that had no variant
+        V("xtab-fs-semicolon", "xtab", ["--oxtab", "--ofs", ";"], ["--ixtab", "--ifs", ";"], dxt_fs, hetero=True,
+          pyread=lambda d: C.read_xtab_document(d.replace(b";", b"\n"))),
+        V("tsvlite-seps", "tsvlite", ["--otsvlite", "--ofs", ";", "--ors", "|\n"], ["--itsvlite", "--ifs", ";", "--irs", "|\n"],
+          make_dom_csvlite(b";", b"|\n"), hetero=True, pyread=lambda d: C.read_csvlite_document(d, fs=b";", rs=b"|\n"),
+          sole_empty_ok=False, irs=b"|\n"),
+        V("nidx-rs", "nidx", ["--onidx", "--ors", ";"], ["--inidx", "--irs", ";"],
+          make_dom_lines([b" ", b"\t", b";", b"\n"], val_nonempty=True), positional=True, hetero=True,
+          pyread=lambda d: C.read_nidx_document(d, rs=b";")),
+    ]
+
+
+def _dkvpx_w(**kw):
+    return lambda records, rng=None: C.write_dkvpx(records, rng=rng, **kw)
+
+
+# independent codecs for variants defined above without them (looked up by C01 only; the Variant objects are unchanged)
+EXTRA_CODECS = {
+    "dkvpx": {"pyread": lambda d: C.read_dkvpx_document(d), "pywrite": _dkvpx_w(),
+              "styles": [("minimal-lf", _dkvpx_w()), ("quote-all-lf", _dkvpx_w(quote="all")), ("quote-random-crlf", _dkvpx_w(quote="random", rs=b"\r\n")),
+                         ("minimal-crlf", _dkvpx_w(rs=b"\r\n"))]},
+    "dkvpx-seps": {"pyread": lambda d: C.read_dkvpx_document(d, fs=b";", ps=b":"), "pywrite": _dkvpx_w(fs=b";", ps=b":"),
+                   "styles": [("minimal-lf", _dkvpx_w(fs=b";", ps=b":")), ("quote-all-crlf", _dkvpx_w(fs=b";", ps=b":", quote="all", rs=b"\r\n"))]},
+    "tsvlite": {"styles": [("lf", _w(C.write_csvlite, fs=b"\t")), ("crlf", _crlf(lambda r: C.write_csvlite(r, fs=b"\t")))]},
+    "markdown": {"styles": [("lf", _w(C.write_markdown)), ("crlf", _crlf(C.write_markdown))]},
+}
